@@ -206,7 +206,11 @@ EvCase(order, R) == EvCaseV(order, R, EvVal)
 \* a field unknown to the reader that is larger than 64 KiB: offsets need the big table although every tag is small
 EvBigVal(t) == IF t = 2 THEN VString(Fill(65600)) ELSE EvVal(t)
 EvBigMsgs == IF Mode # "evolve" THEN {} ELSE Perms({1, 2, 255}) \cup Perms({2, 255})
+\* a nested message unknown to the reader whose data needs a three-byte size while its table needs one byte (253..65535)
+EvNestVal(t) == IF t = 255 THEN VMsg(<< <<1, VByte(9)>>, <<2, VString(Fill(300))>> >>) ELSE EvVal(t)
+EvNestMsgs == IF Mode # "evolve" THEN {} ELSE Perms({1, 3, 255}) \cup Perms({255})
 EvBigCases == { EvCaseV(o, R, EvBigVal) : o \in EvBigMsgs, R \in {{255}, {1, 255}} }
+              \cup { EvCaseV(o, R, EvNestVal) : o \in EvNestMsgs, R \in {{1}, {3}, {1, 3}} }
 
 \* ---------------------------------------------------------------- machine
 Init ==
